@@ -816,9 +816,12 @@ func (t EnumType) MemberForValue(value any) (EnumValue, bool) {
 	equal := func(a, b any) bool {
 		return a == b
 	}
-	if t.Values[0].Type.Scalar.ScalarKind != KindString {
+	if t.Values[0].Type.Scalar != nil && t.Values[0].Type.Scalar.ScalarKind != KindString {
 		equal = func(a, b any) bool {
-			return tools.AnyToInt64(a) == tools.AnyToInt64(b)
+			intA, okA := tools.AnyAsInt64(a)
+			intB, okB := tools.AnyAsInt64(b)
+
+			return okA && okB && intA == intB
 		}
 	}
 
